@@ -14,7 +14,7 @@ def verdict(ev, prop):
     caught = c['exit'] == 1 and any(l.startswith('VIOLATION') for l in c['lines'])
     by = []
     for l in c['lines']:
-        m = re.match(r'\s*failed: (\S+?):', l)
+        m = re.match(r'\s*failed: (.+?): ', l)
         if m:
             k = m.group(1)
             by.append('harness ' + k.split(':')[1] if k.startswith('harness:') else 'obligation ' + k)
